@@ -283,7 +283,7 @@ func init() {
 	register(&propertySpec{
 		ID:      "C13",
 		Explain: "Static totality rules: recursion classes, may-panic sites on input-derived data, nil use after an ignored error, locks released by plain calls around code that can panic, swallowed errors.",
-		Rules:   []ruleFn{ruleTerm("C13")},
+		Rules:   []ruleFn{ruleTerm("C13"), rulePanics, ruleErrSwallow},
 	})
 }
 
@@ -361,4 +361,139 @@ func visitedSetClass(w *World, c scc) string {
 		return "not applicable"
 	}
 	return ""
+}
+
+// ---- PANIC rules ---------------------------------------------------------------------------------
+
+// panicExemptions: kind|function|detail -> reason.  One named construct each.
+var panicExemptions = map[string]string{
+	"assert|(*core.Cache).Get|*core.cacheEntry":   "the cache holds only *cacheEntry values: Cache.Add is the only writer of the underlying LRU (who-may-call, by reading)",
+	"assert|core.CachedSlurp|string":               "SlurpCache holds only strings: CachedSlurp is its only writer",
+	"assert|(core.ThingSlice).Less|string":         "Less is reached only through sort.Sort on a ThingSlice built by AsThingSlice, which refuses heterogeneous slices (IsSortable); the first element's type switch therefore decides all",
+	"assert|(core.ThingSlice).Less|float64":        "see ThingSlice.Less / string",
+	"assert|(core.ThingSlice).Less|int":            "see ThingSlice.Less / string",
+	"assert|sys.GetStorage|string":                 "start-up configuration value supplied by the embedder, not request input",
+	"assert|(*service.Service).ProcessRequest|float64": "/api/sys/admin/* operator endpoint, outside the location API the property is about",
+	"panic|(*service.Service).ProcessRequest":      "/api/sys/admin/panic exists to panic on purpose (operator endpoint)",
+	"panic|(core.StringSet).json":                  "json.Marshal of a []string cannot fail",
+	"panic|core.MustMap":                           "Must-style helper for literals in tests and examples; no request path calls it (checked: callers)",
+	"panic|core.NewCache":                          "constructor: lru.New fails only for a non-positive size, a programming error at start-up",
+	"panic|core.Profile":                           "developer profiling helper, not reachable from any request",
+	"panic|core.SetParameters":                     "start-up configuration",
+	"panic|sys.SimpleSystem":                       "example / test constructor",
+	"panic|core.throwJavascript":                   "by design: the panic carries a JavaScript exception that otto catches and turns into a script error",
+	"panic|core.RunJavascript$14":                  "by design: the watchdog's interrupt function panics with Halt inside the otto runtime; RunJavascript's deferred recover turns it into an error (RECOVER-RESULT)",
+	"panic|core.RunJavascript$14$1":                "see RunJavascript$14",
+	"index|(*core.Location).ListRules":             "a SearchResult is only emitted with at least one binding (SEARCH-REMATCH: 0 < len(bss))",
+	"index|(*core.OutboundBreaker).Do":             "counts is allocated by init with the constant breakerTicks (20) elements",
+	"index|(*cron.Cron).Add":                       "guarded by core.OneShotSchedule(schedule), which is false for the empty string",
+	"index|core.Log":                               "args always holds at least the op key and the appended origin fields",
+	"index|cron.ParseSchedule":                     "strings.SplitN never returns an empty slice for n != 0",
+}
+
+func panicKey(w *World, s panicSite) (string, string) {
+	detail := ""
+	if s.Kind == "assert" {
+		ta := s.In.(*ssa.TypeAssert)
+		detail = "|" + types.TypeString(ta.AssertedType, func(p *types.Package) string { return p.Name() })
+	}
+	return s.Kind + "|" + fname(s.Fn) + detail, detail
+}
+
+func rulePanics(w *World, r *Report) {
+	r.Rule("PANIC-ASSERT", "no single-result type assertion x.(T) in core, sys, service or cron is applied to a value whose dynamic type is not established by a dominating comma-ok assertion / type-switch arm on the same value (type-set data-flow, multi-type case arms handled); each remaining site is either a violation or a named exception with its invariant", 8)
+	r.Rule("PANIC-EXPLICIT", "every explicit panic(...) in core, sys, service or cron is a re-panic of a recovered value, a by-design control transfer that is recovered (script exceptions, the script watchdog), start-up / developer-only code, or a violation", 6)
+	r.Rule("PANIC-INDEX", "every constant index / constant-bound slice of a string or slice is dominated by a test of its length, or indexes a slice made with a sufficient constant length; remaining sites are violations or named exceptions", 4)
+	counts := map[string]int{}
+	for _, fn := range w.Funcs {
+		if isTestFile(w, fn) {
+			continue
+		}
+		p := w.RelPkg(fn)
+		if p != "core" && p != "sys" && p != "service" && p != "cron" {
+			continue
+		}
+		var sites []panicSite
+		sites = append(sites, uncheckedAsserts(fn)...)
+		sites = append(sites, explicitPanics(fn)...)
+		sites = append(sites, constIndexSites(fn)...)
+		for _, s := range sites {
+			rule := map[string]string{"assert": "PANIC-ASSERT", "panic": "PANIC-EXPLICIT", "index": "PANIC-INDEX"}[s.Kind]
+			k, _ := panicKey(w, s)
+			counts[k]++
+			key := k
+			if counts[k] > 1 {
+				key += "#" + itoa(counts[k])
+			}
+			if reason, ok := panicExemptions[k]; ok {
+				r.exempt(rule, key, w.PosOf(s.In), reason)
+				continue
+			}
+			r.violation(rule, key, w.PosOf(s.In), s.Desc+": a malformed input panics here")
+		}
+	}
+	// safe assertions are counted so that the rule cannot pass vacuously
+	safe := 0
+	for _, fn := range w.Funcs {
+		if isTestFile(w, fn) {
+			continue
+		}
+		p := w.RelPkg(fn)
+		if p != "core" && p != "sys" && p != "service" && p != "cron" {
+			continue
+		}
+		allInstrs(fn, func(in ssa.Instruction) {
+			if ta, ok := in.(*ssa.TypeAssert); ok && !ta.CommaOk {
+				safe++
+			}
+		})
+	}
+	r.stat("PANIC-ASSERT.single_result_assertions_total", safe)
+}
+
+// ERR-SWALLOW: a named error result is assigned from a call but the function returns a literal nil.
+func ruleErrSwallow(w *World, r *Report) {
+	r.Rule("ERR-SWALLOW", "a function that stores a callee's error into its named error result does not then return a literal nil error on a path from that store (the error would be computed and thrown away: e.g. ParseMap reporting success for invalid JSON)", 1)
+	n := 0
+	for _, fn := range w.Funcs {
+		if isTestFile(w, fn) || fn.Synthetic != "" {
+			continue
+		}
+		p := w.RelPkg(fn)
+		if p != "core" && p != "sys" && p != "service" && p != "cron" {
+			continue
+		}
+		idx := errorResultIndex(fn.Signature)
+		if idx < 0 || fn.Signature.Results().At(idx).Name() == "" {
+			continue
+		}
+		n++
+		// with named results and no defer, go/ssa keeps `err` as an SSA value: the signature of the defect is a call whose error
+		// result is assigned to the named result variable and never used
+		bad := ""
+		allInstrs(fn, func(in ssa.Instruction) {
+			c, ok := in.(*ssa.Call)
+			if !ok {
+				return
+			}
+			eidx := errorResultIndex(c.Common().Signature())
+			if eidx < 0 {
+				return
+			}
+			e := errResultOf(c, eidx)
+			if e == nil {
+				// discarded: was it syntactically assigned to the named result?  (`err = f()` with err never read)
+				if assignedToNamedResult(w, fn, c, fn.Signature.Results().At(idx).Name()) {
+					bad = w.PosOf(in)
+				}
+			}
+		})
+		key := "fn=" + fname(fn)
+		if bad != "" {
+			r.violation("ERR-SWALLOW", key, bad, "the error assigned to the named result here is never returned: the function always reports success")
+		} else {
+			r.ok("ERR-SWALLOW", key, w.Pos(fn.Pos()), "no computed-and-discarded error")
+		}
+	}
+	r.stat("ERR-SWALLOW.functions_with_named_error_result", n)
 }
